@@ -4,12 +4,13 @@ notes.md, eval.json) into /verif/seeded/<Cxx>-<A|B>/ (patch.diff, demo_test.go, 
 import json, os, re, shutil, sys, glob
 
 root = sys.argv[1]
+rename = dict(x.split("=") for x in sys.argv[2].split(",")) if len(sys.argv) > 2 else {}   # e.g. A=C,B=D for a second round
 out = os.path.join(os.path.dirname(os.path.dirname(os.path.abspath(__file__))), "seeded")
 os.makedirs(out, exist_ok=True)
 index = []
 for d in sorted(glob.glob(os.path.join(root, "C*.out", "[AB]"))):
     pid = os.path.basename(os.path.dirname(d))[:3]
-    tag = "%s-%s" % (pid, os.path.basename(d))
+    tag = "%s-%s" % (pid, rename.get(os.path.basename(d), os.path.basename(d)))
     ev = json.load(open(os.path.join(d, "eval.json")))
     if not ev.get("confirm", {}).get("confirmed"):
         print("skip (not confirmed)", tag)
